@@ -452,7 +452,7 @@ theorem C04_copy_is_span_partial (S : Segmenter) (U : UData) (hS : S.Stable) (lb
 /-! ### what is NOT true of the current tree -/
 
 /-- a small concrete Unicode-data record for counter-examples -/
-def C04_exU : UData := ⟨fun c => c.isAlphanum, fun c => c == ' ', fun c => [c], fun c => [c], fun t => t.length⟩
+def C04_exU : UData := ⟨fun c => c.isAlphanum, fun c => c == ' ', fun c => [c], fun c => [c], fun t => t.length, fun _ => 1⟩
 
 /-- known finding F-C04-vi-first-print: `kill(ViFirstPrint)` (`d^`) does nothing. Witness "ab", cursor 1:
     the span `[0,1)` is named, the text is unchanged. -/
@@ -626,7 +626,7 @@ theorem C04_vertical_column : C04_vertical_column_statement := by
 /-- Unicode data with a wide character: `'W'` is two columns wide, every other character one -/
 def C04_wideU : UData :=
   ⟨fun c => c.isAlphanum, fun c => c == ' ', fun c => [c], fun c => [c],
-   fun t => (t.map (fun c => if c == 'W' then 2 else 1)).sum⟩
+   fun t => (t.map (fun c => if c == 'W' then 2 else 1)).sum, fun c => if c == 'W' then 2 else 1⟩
 
 /-- "WW\nabcd", cursor after "ab" (display column 2), one line up: after the first 'W' (was: end of "WW") -/
 example : LB.moveToLineUp charSeg C04_wideU 1 0 ⟨['W', 'W', '\n', 'a', 'b', 'c', 'd'], 5, 16, false⟩ =
